@@ -209,10 +209,12 @@ def cases_of(desc, rng=None):
     # attribute statements: definitions, defaults, values (user attributes; the carriers Gen*/System* are the writer's own)
     kw = {"frame": "BO_", "signal": "SG_", "ecu": "BU_", "global": ""}
     kinds = {}
+    defs_text = {}
     nd = 0
     for lvl in ("frame", "signal", "ecu", "global"):
         for name, definition, default in desc["defines"][lvl]:
             kinds[(lvl, name)] = definition.split()[0]
+            defs_text[(lvl, name)] = definition
             if name.startswith("Gen") or nd >= 4:
                 continue
             nd += 1
@@ -225,7 +227,8 @@ def cases_of(desc, rng=None):
         if k == "STRING":
             return '"%s"' % v
         if k == "ENUM":
-            return str(G.ENUM_VALUES.index(v)) if v in G.ENUM_VALUES else str(v)
+            vals = G.enum_values_of(defs_text.get((lvl, name), "ENUM "))
+            return str(vals.index(v)) if v in vals else str(v)
         return str(v)
     bas = []
 
